@@ -143,9 +143,9 @@ class CountingBloomFilter(BloomFilter):
         #       if not then we will need to update this and the C version
         indices = [hashes[i] % self._bloom_length for i in range(self._number_hashes)]
         vals = [self._bloom[k] + num_els for k in indices]
-        for i, v in enumerate(vals):
-            k = indices[i]
-            if v > UINT32_T_MAX:
+        for i, k in enumerate(indices):
+            # compare against the current cell: an earlier occurrence of the same index may already have raised it
+            if self._bloom[k] + num_els > UINT32_T_MAX:
                 self._bloom[k] = UINT32_T_MAX
                 vals[i] = UINT32_T_MAX
             else:
